@@ -381,6 +381,15 @@ impl ActorProperties {
         Ok(())
     }
 
+    /// Would `send_stop` / `send_signal` still find its one-shot port open? (verification hook:
+    /// lets a harness call the PUBLIC `stop()` / `kill()` and still know whether it was accepted)
+    #[cfg(feature = "verif")]
+    pub(crate) fn verif_ports_open(&self) -> (bool, bool) {
+        let stop = self.stop.lock().unwrap().as_ref().map(|p| !p.is_closed()).unwrap_or(false);
+        let signal = self.signal.lock().unwrap().as_ref().map(|p| !p.is_closed()).unwrap_or(false);
+        (stop, signal)
+    }
+
     /// Raw admission word (verification hook): (closed, marker_sent, count).
     #[cfg(feature = "verif")]
     pub(crate) fn verif_admission_word(&self) -> (bool, bool, usize) {
